@@ -411,8 +411,22 @@ class SessionHandler:
     @staticmethod
     def reset() -> None:
         diff = datetime.datetime.utcnow() - datetime.datetime(1900, 1, 1, 0, 0, 0)
-        SessionHandler.init = diff.days*24*60*60 + diff.seconds
+
+        #: Seconds since 1900 as in NTP, which wrap around in 2036: the 
+        #: value has to fit the <high 32 bits> field.
+        SessionHandler.init = (diff.days*24*60*60 + diff.seconds) % 2**32
         SessionHandler.id = 0
+
+
+    @staticmethod
+    def _increment() -> None:
+        #: <high 32 bits>;<low 32 bits> is one 64-bit counter: the low part
+        #: carries into the high part instead of outgrowing its 32 bits.
+        SessionHandler.id += 1
+
+        if SessionHandler.id >= 2**32:
+            SessionHandler.id = 0
+            SessionHandler.init = (SessionHandler.init + 1) % 2**32
 
 
     @staticmethod
@@ -422,15 +436,15 @@ class SessionHandler:
 
             if _previous:
                 if current == _previous[0]:
-                    SessionHandler.id += 1
+                    SessionHandler._increment()
                     return
 
             #: A different identity keeps drawing from the same counter: 
             #: resetting it would hand out <high>;0, <high>;1, ... again.
-            SessionHandler.id += 1
+            SessionHandler._increment()
             return
         
-        SessionHandler.id += 1
+        SessionHandler._increment()
 
 
 SessionHandler()
